@@ -30,13 +30,15 @@ ASSUMPTIONS = ['instructions inside one barrier-to-barrier segment are not inter
                'cross-thread read or write conflict a deterministic wrong answer instead',
                'integer inputs stay where the element type\'s own subtraction and squaring cannot overflow',
                'float32 inputs: relative tolerance 1e-6 (the kernel subtracts in float32 by construction); others 1e-12; Hamming exact']
-REACH_EXPECTED = ['team_ge_2', 'one_thread_per_sample', 'dirty_out', 'strided_out', 'fortran_X', 'negative_stride',
+REACH_EXPECTED = ['wide_rows', 'tall_matrix', 'team_ge_2', 'one_thread_per_sample', 'dirty_out', 'strided_out', 'fortran_X', 'negative_stride',
                   'zero_samples', 'zero_features', 'invalid_rejected', 'schedule_pair_compared', 'via_metric_name']
 
 EUCL = ('int8', 'int16', 'int32', 'int64', 'float32', 'float64')
 HAMM = ('uint8', 'uint16', 'uint32', 'uint64', 'int8', 'int16', 'int32', 'int64')
-RANGE = {'int8': 50, 'int16': 100, 'int32': 10000, 'int64': 10 ** 6, 'uint8': 100, 'uint16': 1000, 'uint32': 10 ** 5,
-         'uint64': 10 ** 6}
+# largest magnitude generated per element type: differences must be representable in C's promoted arithmetic
+# (int for types up to 32 bits, long for 64-bit) and their squares in 64 bits - nothing narrower than that
+RANGE = {'int8': 127, 'int16': 32767, 'int32': 10 ** 9, 'int64': 10 ** 9, 'uint8': 255, 'uint16': 65535, 'uint32': 2 ** 32 - 1,
+         'uint64': 2 ** 40}
 
 
 def setup():
@@ -55,8 +57,15 @@ def gen_values(t, shape, dt):
         # few distinct states so that equal coordinates are common (Hamming)
         span = 2 + t.draw(3) if t.flag(2, 3) else r
         return np.array(t.block(n, span), dtype=np.int64).reshape(shape).astype(dt)
-    span = 3 + t.draw(3) if t.flag(1, 3) else 2 * r
-    return (np.array(t.block(n, span), dtype=np.int64).reshape(shape) - (span // 2)).astype(dt)
+    mode = t.draw(3)
+    if mode == 0:
+        span = 3 + t.draw(3)
+        return (np.array(t.block(n, span), dtype=np.int64).reshape(shape) - (span // 2)).astype(dt)
+    if mode == 1:
+        return (np.array(t.block(n, 2 * r + 1), dtype=np.int64).reshape(shape) - r).astype(dt)
+    # extremes: the ends of the range and zero
+    ext = np.array([-r, r, 0, r - 1, -r + 1], dtype=np.int64)
+    return ext[np.array(t.block(n, len(ext)), dtype=np.int64)].reshape(shape).astype(dt)
 
 
 def layout(ctx, t, a, kinds):
@@ -96,6 +105,14 @@ def layout(ctx, t, a, kinds):
 
 def exact_reference(kernel, X, y):
     """per row, the exact value rounded once"""
+    if X.size > 20000 and X.dtype.kind in 'iu':
+        # exact in int64/object arithmetic, vectorised (values are bounded by RANGE)
+        d = X.astype(object) - y.astype(object)
+        if kernel == 'hamming':
+            return np.array([(row != 0).sum() / len(y) for row in d], dtype=np.float64)
+        if kernel == 'euclidean':
+            return np.array([math.sqrt(int((row * row).sum())) for row in d], dtype=np.float64)
+        return np.array([float(int(np.abs(row).sum())) for row in d], dtype=np.float64)
     out = []
     Xl = X.tolist()
     yl = y.tolist()
@@ -150,7 +167,10 @@ def call_kernel(ctx, fn, X, y, out, T, dec, iso=True):
     ctx.count('isolated_regions', st['iso_regions'])
     ctx.count('merged_diff_bytes', st['diff_bytes'])
     if st['conflict_bytes']:
-        ctx.hit('write_write_conflict_bytes', st['conflict_bytes'])
+        # two virtual threads of one team wrote different values to the same bytes of a NumPy buffer between two
+        # barriers: in a race-free region the threads' write sets are disjoint
+        raise SimViolation('data_race_write_write', '%d bytes written with different values by more than one thread of the '
+                           'team (T=%d) within one barrier epoch' % (st['conflict_bytes'], st['max_team']))
     return res, st
 
 
@@ -190,6 +210,14 @@ def valid_call(ctx, t, kernel, fn):
     if kernel != 'hamming' and t.flag(1, 12):
         f = 0
         ctx.hit('zero_features')
+    shape_mode = t.draw(40)
+    if shape_mode == 0:
+        # few very long rows (sizes around the powers of two where fast paths tend to switch)
+        n, f = t.irange(1, 3), t.choice((4096, 4097, 8192, 5000))
+        ctx.hit('wide_rows')
+    elif shape_mode == 1:
+        n, f = t.choice((4096, 32768, 33000)), t.irange(1, 2)
+        ctx.hit('tall_matrix')
     if n == 0:
         ctx.hit('zero_samples')
     Xv = gen_values(t, (n, f), dt)
